@@ -41,7 +41,9 @@ DATEVALS = [('q:date8-good', '20040229'), ('q:date8-bad', '20040230'), ('q:date6
             ('q:dt12-good', '200402291200'), ('q:dt12-bad', '200402292400'), ('q:time4-good', '1200'), ('q:time4-bad', '2400'),
             ('q:time6-good', '120059'), ('q:time5', '12000'), ('q:range-good', '20040101-20040229'),
             ('q:range-bad', '20040101-20040230'), ('q:range-half', '20040101-'), ('q:range-triple', '20040101-20040102-20040103'),
-            ('q:alpha', 'ABCD'), ('q:date8-alpha', '2004022A'), ('q:date8-trailing-blank', '20040229 ')]
+            ('q:alpha', 'ABCD'), ('q:date8-alpha', '2004022A'), ('q:date8-trailing-blank', '20040229 '),
+            ('q:date8-day-00', '20040100'), ('q:date8-month-00', '20040001'), ('q:date6-day-00', '040100'),
+            ('q:range-day-00', '20040100-20040131'), ('q:range-end-day-00', '20040101-20040200'), ('q:time4-min-60', '1260')]
 
 
 # ---------------------------------------------------------------------------------------------------
@@ -323,7 +325,10 @@ def catalogue(d, thorough):
                        ('date:len7', '2004022'), ('date:len9', '200402290'), ('date:good12', '200402291200'),
                        ('date:bad12', '200402292400'), ('date:alpha', '2004022A'), ('date:non-ascii-digit', '2004022٣'),
                        ('date:trailing-blank', '2004022 '), ('date:range', '20040101-20040102'), ('ctrl:BEL', '\x072004022'),
-                       ('ctrl:HT', '2004\t229'), ('date:len1', '2')):
+                       ('ctrl:HT', '2004\t229'), ('date:len1', '2'),
+                       # each field at zero and one past its maximum, each on its own
+                       ('date:day-00', '20040100'), ('date:month-00', '20040001'), ('date:day-32', '20040132'), ('date:day-31-in-30', '20040431'),
+                       ('date:day6-00', '040100'), ('date:month6-00', '040001'), ('date:min12-60', '200401011260'), ('date:hour12-24', '200401012400')):
             add(lab, v)
     elif t == 'TM':
         for lab, v in (('time:good4', '1200'), ('time:last-minute', '2359'), ('time:bad-hour', '2400'), ('time:bad-minute', '1260'),
